@@ -8,7 +8,7 @@
       thread may run.  `guarded = false` gives the delete of the expired successful entry as in the code BEFORE that
       patch (unconditional `del self._cache_successful[login]`, KeyError when another thread was faster).
    What makes the steps atomic with respect to each other is the lock discipline of (1) -- Proofs/C17Lock.v. *)
-From Coq Require Import List ZArith NArith Bool.
+From Coq Require Import List ZArith NArith Bool String.
 Import ListNotations.
 Require Import RV.Lib.PyStr RV.Model.LoginCache.
 Open Scope Z_scope.
@@ -56,6 +56,14 @@ Definition expected_shape : list shape :=
     (DSuccessful, AStore, true);      (* TStoreOk: with self._lock: self._cache_successful[login] = ...     *)
     (DFailed, APop, true);            (*             self._cache_failed.pop(digest_failed, None)            *)
     (DFailed, AStore, true) ].        (* TStoreFail: with self._lock: self._cache_failed[digest_failed] = ... *)
+
+(* every occurrence of an instance attribute that login or one of its callees writes (not only the two dictionaries) *)
+Record saccess := mkSAccess {
+  sa_line : N; sa_method : string; sa_attr : string;
+  sa_write : bool; sa_locked : bool; sa_atomic_read : bool }.
+(* shared instance state is written only inside the lock, and read outside it only by a single atomic read *)
+Definition saccess_ok (a : saccess) : bool := sa_locked a || (negb (sa_write a) && sa_atomic_read a).
+Definition offending (l : list saccess) : list string := map sa_attr (filter (fun a => negb (saccess_ok a)) l).
 
 (* ---------------------------------------------------------------- 2. step model *)
 Record treq := mkReq { q_login : pystr (* as mapped *); q_pw : pystr; q_now : Z (* this thread's time_ns *) }.
